@@ -55,6 +55,29 @@ fn hexs(b: &[u8]) -> String {
 }
 
 /// C10 stratified cell: (method, nbytes, position of a chunk boundary inside the value, shortfall).
+/// A chain of 2-4 leaves that together hold one valid UTF-8 text, cut at arbitrary *byte*
+/// positions (so multi-byte characters straddle chunk boundaries).
+fn utf8_plan(rng: &mut Rng) -> J {
+    let alphabet = ["a", "Z", " ", "\n", "0", "é", "ß", "€", "漢", "𝄞", "😀"];
+    let mut text = String::new();
+    for _ in 0..rng.range(1, 24) {
+        text.push_str(*rng.pick(&alphabet));
+    }
+    let bytes = text.into_bytes();
+    let pieces = rng.range(2, 4);
+    let mut cuts: Vec<usize> = (0..pieces - 1).map(|_| rng.range(0, bytes.len())).collect();
+    cuts.sort();
+    cuts.insert(0, 0);
+    cuts.push(bytes.len());
+    let kinds = ["slice", "bytes_vec", "bytes_mut", "cursor_vec", "deque", "seg", "seg_default", "seg_fine", "bytes_shared"];
+    let mk = |rng: &mut Rng, d: &[u8]| J::obj().set("k", *rng.pick(&kinds)).set("hex", hexs(d)).set("n", d.len()).set("seed", rng.next_u64()).set("pre", rng.range(0, 3));
+    let mut plan = mk(rng, &bytes[cuts[pieces - 1]..cuts[pieces]]);
+    for i in (0..pieces - 1).rev() {
+        plan = J::obj().set("k", "chain").set("a", mk(rng, &bytes[cuts[i]..cuts[i + 1]])).set("b", plan);
+    }
+    plan
+}
+
 fn typed_grid(i: u64, rng: &mut Rng) -> (J, Vec<J>) {
     let mut names: Vec<String> = Vec::new();
     for t in ["get_", "try_get_"] {
@@ -130,6 +153,11 @@ fn run_one(mode: &str, focus: &str, plan: &J, given: Option<&[J]>, rng: &mut Rng
             Outcome { viol: r.viol, ops: r.ops, steps: r.steps, panics: r.panics, straddles: 0, shortfalls: 0, probes: r.probes, digest: r.digest.0 }
         }
         "byz" => byz::run(plan, given, rng, steps, journal),
+        _ if plan.str("k") == Some("huge_laws") => {
+            let mut probes: BTreeMap<&'static str, u64> = BTreeMap::new();
+            let viol = read::huge_laws(&mut probes);
+            Outcome { viol, ops: vec![], steps: 1, panics: 0, straddles: 0, shortfalls: 0, probes, digest: 0x4855_4745 }
+        }
         _ => {
             let r = read::run(plan, given, rng, steps, focus, journal);
             Outcome { viol: r.viol, ops: r.ops, steps: r.steps, panics: r.panics, straddles: r.straddles, shortfalls: r.shortfalls, probes: r.probes, digest: r.digest.0 }
@@ -203,6 +231,9 @@ fn main() {
                         let (p, o) = typed_grid(i / 2, &mut rng);
                         (p, Some(o))
                     }
+                    // run 0 of the `laws` profile: chunks of 4 GiB and more (not under a sanitizer's allocator)
+                    ("read", "laws") if i == 0 && !cfg!(feature = "asan") => (J::obj().set("k", "huge_laws"), Some(Vec::new())),
+                    ("read", f) if f != "typed" && rng.chance(1, 12) => (utf8_plan(&mut rng), None),
                     _ => {
                         let d = rng.range(0, 4);
                         (node::gen_plan(&mut rng, d, 60), None)
